@@ -3,7 +3,7 @@
 # the patch applied (nothing is written into /repo or into /verif's evidence / replays); the worktree is removed.
 prop=$1; dir=$2; tier=${3:-quick}
 WT=$(mktemp -d /tmp/trywt-XXXX); rmdir $WT
-git -C /repo worktree add -q --detach $WT HEAD && git -C $WT apply $dir/patch.diff || { git -C /repo worktree remove --force $WT; exit 2; }
+git -C /repo worktree add -q --detach $WT HEAD && git -C $WT apply "$(realpath $dir)/patch.diff" || { git -C /repo worktree remove --force $WT; exit 2; }
 EV=$(mktemp -d /tmp/tryev-XXXX)
 VERIF_REPO=$WT VERIF_EVIDENCE_DIR=$EV VERIF_REPLAYS_DIR=$EV/replays /verif/check $prop $tier 2>&1 | grep -E '^(OK|VIOL|INCON|KNOWN|NOTE)' | cut -c1-400
 for f in $EV/replays/$prop/fail-*.json; do [ -f "$f" ] && python3 -c "
